@@ -81,6 +81,17 @@ def gen_plan(rng):
             names = TRACT_LEVEL
         names = [n for n in names]
         sigma = opgen.gen_sigma(rng, names, lo=1, hi=3)
+        if cls == "PLSSDesc" and rng.random() < 0.12:
+            # documented interplays get dedicated draws
+            sigma = rng.choice((
+                {"sec_colon_required": rng.random() < 0.5,
+                 "sec_colon_cautious": rng.random() < 0.7},
+                {"layout": "copy_all", "segment": True},
+                {"parse_qq": rng.random() < 0.7,
+                 "clean_qq": True},
+                {"default_ns": rng.choice(("s", "S")),
+                 "default_ew": rng.choice(("e", "E")), "ocr_scrub": True},
+            ))
         if "qq_depth" in sigma:
             sigma.pop("qq_depth_min", None)
             sigma.pop("qq_depth_max", None)
@@ -177,8 +188,15 @@ def txt(sigma, sep=","):
     return sep.join(opgen.setting_to_text(k, v) for k, v in sigma.items())
 
 
+def _ordered(d):
+    """Canonical (generator-independent) order of a setting assignment."""
+    order = {n: i for i, n in enumerate(opgen.ALL_SETTINGS)}
+    return {k: d[k] for k in sorted(d, key=lambda n: (order.get(n, 99), n))}
+
+
 def build(draw):
-    fam, cls, sigma, old = draw["family"], draw["cls"], draw["sigma"], draw["old"]
+    fam, cls = draw["family"], draw["cls"]
+    sigma, old = _ordered(draw["sigma"]), _ordered(draw["old"])
     text, sep = draw["text"], draw["sep"]
     H, pairs = {}, []
 
